@@ -6,6 +6,7 @@ import (
 	"fmt"
 	"os"
 	"path/filepath"
+	"strings"
 	"sync"
 	"syscall"
 
@@ -22,7 +23,7 @@ func init() {
 	core.Register(&core.Prop{
 		ID:    "C06",
 		Level: "exploration",
-		Rule: "Plus the view sizesweep (1 session of 12): every file size from 48 below to 4 above one and two 32 KiB read buffers. source views {on-disk tree, synthetic tree, synthetic fan-out of 150-400 files, SubDirFS, include-filtered view} x request scripts of an independent reference receiver {all in order, reverse, random subset, burst of all ids before any DATA is consumed, request on STAT arrival while the walk is streaming, none} x invalid requests {none, duplicate, never-announced id, non-file id} x stream capacity {0,1,2,8,64} and seeded delays; every packet the real Send emits is checked online by a protocol monitor written from the protocol text. " +
+		Rule: "Plus: no two stream calls of the sender's endpoint overlap (overlap detector of the harness stream, which dwells inside its calls in half of the sessions). Plus the view sizesweep (1 session of 12): every file size from 48 below to 4 above one and two 32 KiB read buffers. source views {on-disk tree, synthetic tree, synthetic fan-out of 150-400 files, SubDirFS, include-filtered view} x request scripts of an independent reference receiver {all in order, reverse, random subset, burst of all ids before any DATA is consumed, request on STAT arrival while the walk is streaming, none} x invalid requests {none, duplicate, never-announced id, non-file id} x stream capacity {0,1,2,8,64} and seeded delays; every packet the real Send emits is checked online by a protocol monitor written from the protocol text. " +
 			"non-trivial = at least one multi-chunk or >132-file request script completed, or an invalid request was rejected; distinct by (view, script, schedule) fingerprint",
 		Assumptions: []string{"the reference receiver reads continuously (it buffers DATA) like any deployed receiver", "ids are zero-based STAT positions as documented in receive.go"},
 		Cases: func(tier string) int {
@@ -322,6 +323,19 @@ func c06Run(c *core.Ctx) *core.Result {
 	}
 	r.Count("sessions", 1)
 	r.AddSet("configs", fmt.Sprintf("%s/%s/%s", viewKind, mode, invalid))
+	// every packet of the sender goes through one serialised SendMsg: the
+	// harness stream (which dwells inside its calls in half of the sessions)
+	// must never see two calls of the sender's endpoint at once
+	var sov []string
+	for _, o := range res.Pair.Overlaps() {
+		if strings.Contains(strings.SplitN(o, "\n", 2)[0], "endpoint S") {
+			sov = append(sov, o)
+		}
+	}
+	if len(sov) > 0 {
+		r.ViolateD("sender-stream-overlap", map[string]any{"config": desc, "first": trunc(sov, 2)}, "%s: %d overlapping stream calls on the sender's endpoint, first: %s", desc, len(sov), strings.SplitN(sov[0], "\n", 2)[0])
+		return r
+	}
 	rr.mu.Lock()
 	defer rr.mu.Unlock()
 	det := func() map[string]any {
